@@ -1,6 +1,6 @@
-From Coq Require Import ZArith List Bool.
+From Coq Require Import ZArith QArith Qabs List Bool.
 Import ListNotations.
-From GV Require Import Common.PyInt gen.Gen_array gen.Gen_viewprog C04.Model C04.Lemmas C04.Discharge C04.Lemmas2 C04.Lemmas3.
+From GV Require Import Common.PyInt gen.Gen_array gen.Gen_viewprog C04.Model C04.Lemmas C04.Discharge C04.Lemmas2 C04.Lemmas3 gen.Gen_axiscorr C04.Lemmas4.
 Open Scope Z_scope.
 
 (* SliceSubsetState.to_mask(data, view) = SliceSubsetState.to_mask(data)[view], pointwise and with the same shape,
@@ -228,3 +228,76 @@ Theorem categorical_view_codes_basic :
     snd (cat_view (basic_positions shape view) l) = gather 0 (basic_positions shape view) (snd (cat_full l)).
 Proof. exact Lemmas3.categorical_view_codes_basic. Qed.
 Print Assumptions categorical_view_codes_basic.
+
+(* ---------- round 5: the covering-dependent-axes hypothesis of world_view made checkable for AffineCoordinates ---------- *)
+
+(* The TRANSLATED body of AffineCoordinates.axis_correlation_matrix declares a dependence exactly for the non-zero entries
+   (no tolerance, whatever the magnitude) of exactly M[:-1, :-1]. *)
+Theorem gen_axis_corr_entry_exact :
+  forall x : Q, axis_corr_entry x = negb (Qeq_bool x 0).
+Proof. exact Lemmas4.gen_axis_corr_entry_exact. Qed.
+Print Assumptions gen_axis_corr_entry_exact.
+
+Theorem gen_axis_corr_entry_nonzero :
+  forall x : Q, axis_corr_entry x = true <-> ~ (x == 0)%Q.
+Proof. exact Lemmas4.gen_axis_corr_entry_nonzero. Qed.
+Print Assumptions gen_axis_corr_entry_nonzero.
+
+Theorem gen_axis_corr_submatrix_is :
+  forall M, axis_corr_submatrix M = map (fun r => removelast r) (removelast M).
+Proof. exact Lemmas4.gen_axis_corr_submatrix_is. Qed.
+Print Assumptions gen_axis_corr_submatrix_is.
+
+(* The TRANSLATED dependent_axes is: reverse both axes, graph = identity | matrix | transpose, start from row `axis`,
+   n rounds of "everything reachable in one step", indices of the set bits; (axis,) for LegacyCoordinates. *)
+Theorem gen_dependent_axes_closed :
+  forall corr axis, run_dep dependent_axes_prog false corr axis = Some (dep_closed corr axis).
+Proof. exact Lemmas4.gen_dependent_axes_closed. Qed.
+Print Assumptions gen_dependent_axes_closed.
+
+(* The dependent axes COMPUTED from the matrix cover the true dependencies of the affine world function: the hypothesis of
+   world_view holds for every matrix over Q, whatever the magnitude of its entries. *)
+Theorem affine_dep_covers :
+  forall M axis, affine_rect M ->
+  forall c, affine_world M axis (zero_nondep (affine_dep M axis) 0 c) = affine_world M axis c.
+Proof. exact Lemmas4.affine_dep_covers. Qed.
+Print Assumptions affine_dep_covers.
+
+(* world_view instantiated: no hypothesis about dep is left *)
+Theorem affine_world_view :
+  forall M axis shape view, affine_rect M ->
+  fst (world_calculate Q (affine_world M axis) shape (affine_dep M axis) view) = sel_shape (sel_of shape view) /\
+  forall j, snd (world_calculate Q (affine_world M axis) shape (affine_dep M axis) view) j
+            = affine_world M axis (to_under (sel_of shape view) j).
+Proof. exact Lemmas4.affine_world_view. Qed.
+Print Assumptions affine_world_view.
+
+(* Both layers of the fast path (_calculate zeroes the axes outside dependent_axes; pixel2world_single_axis replaces the axes
+   outside the row of the correlation matrix by the first pixel of the request), both computed from M by the translated code:
+   every element of every view is the world function at that element's pixel coordinates, with the shape of the view. *)
+Theorem affine_world_view2 :
+  forall M axis shape view, affine_rect M ->
+  fst (world_calculate2 Q (affine_world M axis) shape (affine_dep M axis) (affine_rowdep M axis) view) = sel_shape (sel_of shape view) /\
+  forall j, snd (world_calculate2 Q (affine_world M axis) shape (affine_dep M axis) (affine_rowdep M axis) view) j
+            = affine_world M axis (to_under (sel_of shape view) j).
+Proof. exact Lemmas4.affine_world_view2. Qed.
+Print Assumptions affine_world_view2.
+
+(* With a tolerance (np.isclose: |x| <= 1e-8 is "zero") an axis with a non-zero entry of 1e-10 is dropped and a view not
+   starting at pixel 0 is wrong. *)
+Theorem affine_rowdep_tolerance_refuted :
+  exists M axis shape view j,
+    affine_rect M /\
+    snd (world_calculate2 Q (affine_world M axis) shape (affine_dep_with isclose_zero_entry M axis)
+                          (affine_rowdep_with isclose_zero_entry M axis) view) j
+    <> affine_world M axis (to_under (sel_of shape view) j).
+Proof. exact Lemmas4.affine_rowdep_tolerance_refuted. Qed.
+Print Assumptions affine_rowdep_tolerance_refuted.
+
+(* ... and any dep that misses an axis with a non-zero (however small) entry gives a wrong value. *)
+Theorem affine_dep_drop_refuted :
+  exists M axis shape view j dep,
+    (exists i, ~ (nth i (nth axis (affine_linear M) []) 0%Q == 0)%Q /\ mem (Z.of_nat i) dep = false) /\
+    snd (world_calculate Q (affine_world M axis) shape dep view) j <> affine_world M axis (to_under (sel_of shape view) j).
+Proof. exact Lemmas4.affine_dep_drop_refuted. Qed.
+Print Assumptions affine_dep_drop_refuted.
